@@ -372,6 +372,9 @@ func c04Bombs(limit int) []struct{ Name, Src string } {
 		{"closure-nest", bal("all(a,{", "true", "})")}, {"string", `"` + rep("a")}, {"string-closed", `"` + rep("\\n") + `"`},
 		{"digits", rep("9")}, {"ident", rep("x")}, {"commas", "[" + rep("1,")}, {"spaces", rep(" ") + "1"}, {"newlines", rep("\n") + "@"},
 		{"hash-chain", "all(a,{" + rep("#.")}, {"slice-chain", "a" + rep("[1:2]")}, {"multibyte", rep("é")}, {"invalid-utf8", rep("\xff")},
+		// more code than a 16-bit jump offset spans: the compiler must refuse it and every entry point must hand that
+		// refusal on as an error (expr.Eval compiles without a configuration and has its own error path)
+		{"jump-too-far", "true ? [" + rep("a.b,") + "1] : 0"},
 		// allocation bombs: short inputs whose sizes wrap around the int range (a fatal out-of-memory error cannot be
 		// recovered by anybody, hence the child process); bounds more than MaxInt apart, built so that no fold removes them
 		{"range-desc-wrap", "9223360872354775806..(4611686018427387904 * 2)"},
